@@ -371,6 +371,8 @@ impl LpgStore {
     /// Creates a new node with the given labels within a transaction context.
     #[cfg(not(feature = "tiered-storage"))]
     pub fn create_node_versioned(&self, labels: &[&str], epoch: EpochId, tx_id: TxId) -> NodeId {
+        // cardinalities change: the next ensure_statistics_fresh() must recompute
+        self.needs_stats_recompute.store(true, Ordering::Relaxed);
         let id = NodeId::new(self.next_node_id.fetch_add(1, Ordering::Relaxed));
         #[cfg(grafeo_verif)]
         grafeo_common::verif::yield_point("lpg.create_node.after_alloc");
@@ -414,6 +416,8 @@ impl LpgStore {
     /// (Tiered storage version: stores data in arena, metadata in VersionIndex)
     #[cfg(feature = "tiered-storage")]
     pub fn create_node_versioned(&self, labels: &[&str], epoch: EpochId, tx_id: TxId) -> NodeId {
+        // cardinalities change: the next ensure_statistics_fresh() must recompute
+        self.needs_stats_recompute.store(true, Ordering::Relaxed);
         let id = NodeId::new(self.next_node_id.fetch_add(1, Ordering::Relaxed));
 
         let mut record = NodeRecord::new(id, epoch);
@@ -690,6 +694,8 @@ impl LpgStore {
     /// Deletes a node at a specific epoch.
     #[cfg(not(feature = "tiered-storage"))]
     pub fn delete_node_at_epoch(&self, id: NodeId, epoch: EpochId) -> bool {
+        // cardinalities change: the next ensure_statistics_fresh() must recompute
+        self.needs_stats_recompute.store(true, Ordering::Relaxed);
         let mut nodes = self.nodes.write();
         if let Some(chain) = nodes.get_mut(&id) {
             // Check if visible at this epoch (not already deleted)
@@ -742,6 +748,8 @@ impl LpgStore {
     /// (Tiered storage version)
     #[cfg(feature = "tiered-storage")]
     pub fn delete_node_at_epoch(&self, id: NodeId, epoch: EpochId) -> bool {
+        // cardinalities change: the next ensure_statistics_fresh() must recompute
+        self.needs_stats_recompute.store(true, Ordering::Relaxed);
         let mut versions = self.node_versions.write();
         if let Some(index) = versions.get_mut(&id) {
             // Check if visible at this epoch
@@ -1420,6 +1428,8 @@ impl LpgStore {
     /// or already has the label.
     #[cfg(not(feature = "tiered-storage"))]
     pub fn add_label(&self, node_id: NodeId, label: &str) -> bool {
+        // cardinalities change: the next ensure_statistics_fresh() must recompute
+        self.needs_stats_recompute.store(true, Ordering::Relaxed);
         let epoch = self.current_epoch();
 
         // Check if node exists
@@ -1478,6 +1488,8 @@ impl LpgStore {
     /// (Tiered storage version)
     #[cfg(feature = "tiered-storage")]
     pub fn add_label(&self, node_id: NodeId, label: &str) -> bool {
+        // cardinalities change: the next ensure_statistics_fresh() must recompute
+        self.needs_stats_recompute.store(true, Ordering::Relaxed);
         let epoch = self.current_epoch();
 
         // Check if node exists
@@ -1532,6 +1544,8 @@ impl LpgStore {
     /// or doesn't have the label.
     #[cfg(not(feature = "tiered-storage"))]
     pub fn remove_label(&self, node_id: NodeId, label: &str) -> bool {
+        // cardinalities change: the next ensure_statistics_fresh() must recompute
+        self.needs_stats_recompute.store(true, Ordering::Relaxed);
         let epoch = self.current_epoch();
 
         // Check if node exists
@@ -1594,6 +1608,8 @@ impl LpgStore {
     /// (Tiered storage version)
     #[cfg(feature = "tiered-storage")]
     pub fn remove_label(&self, node_id: NodeId, label: &str) -> bool {
+        // cardinalities change: the next ensure_statistics_fresh() must recompute
+        self.needs_stats_recompute.store(true, Ordering::Relaxed);
         let epoch = self.current_epoch();
 
         // Check if node exists
@@ -1738,6 +1754,8 @@ impl LpgStore {
         epoch: EpochId,
         tx_id: TxId,
     ) -> EdgeId {
+        // cardinalities change: the next ensure_statistics_fresh() must recompute
+        self.needs_stats_recompute.store(true, Ordering::Relaxed);
         let id = EdgeId::new(self.next_edge_id.fetch_add(1, Ordering::Relaxed));
         #[cfg(grafeo_verif)]
         grafeo_common::verif::yield_point("lpg.create_edge.after_alloc");
@@ -1773,6 +1791,8 @@ impl LpgStore {
         epoch: EpochId,
         tx_id: TxId,
     ) -> EdgeId {
+        // cardinalities change: the next ensure_statistics_fresh() must recompute
+        self.needs_stats_recompute.store(true, Ordering::Relaxed);
         let id = EdgeId::new(self.next_edge_id.fetch_add(1, Ordering::Relaxed));
         let type_id = self.get_or_create_edge_type_id(edge_type);
 
@@ -1959,6 +1979,8 @@ impl LpgStore {
     /// Deletes an edge at a specific epoch.
     #[cfg(not(feature = "tiered-storage"))]
     pub fn delete_edge_at_epoch(&self, id: EdgeId, epoch: EpochId) -> bool {
+        // cardinalities change: the next ensure_statistics_fresh() must recompute
+        self.needs_stats_recompute.store(true, Ordering::Relaxed);
         let mut edges = self.edges.write();
         if let Some(chain) = edges.get_mut(&id) {
             // Get the visible record to check if deleted and get src/dst
@@ -2004,6 +2026,8 @@ impl LpgStore {
     /// (Tiered storage version)
     #[cfg(feature = "tiered-storage")]
     pub fn delete_edge_at_epoch(&self, id: EdgeId, epoch: EpochId) -> bool {
+        // cardinalities change: the next ensure_statistics_fresh() must recompute
+        self.needs_stats_recompute.store(true, Ordering::Relaxed);
         let mut versions = self.edge_versions.write();
         if let Some(index) = versions.get_mut(&id) {
             // Get the visible record to check if deleted and get src/dst
@@ -2861,6 +2885,8 @@ impl LpgStore {
     /// The caller must ensure IDs don't conflict with existing nodes.
     #[cfg(not(feature = "tiered-storage"))]
     pub fn create_node_with_id(&self, id: NodeId, labels: &[&str]) {
+        // cardinalities change: the next ensure_statistics_fresh() must recompute
+        self.needs_stats_recompute.store(true, Ordering::Relaxed);
         let epoch = self.current_epoch();
         let mut record = NodeRecord::new(id, epoch);
         record.set_label_count(labels.len() as u16);
@@ -2903,6 +2929,8 @@ impl LpgStore {
     /// (Tiered storage version)
     #[cfg(feature = "tiered-storage")]
     pub fn create_node_with_id(&self, id: NodeId, labels: &[&str]) {
+        // cardinalities change: the next ensure_statistics_fresh() must recompute
+        self.needs_stats_recompute.store(true, Ordering::Relaxed);
         let epoch = self.current_epoch();
         let mut record = NodeRecord::new(id, epoch);
         record.set_label_count(labels.len() as u16);
@@ -2951,6 +2979,8 @@ impl LpgStore {
     /// This is used for WAL recovery to restore edges with their original IDs.
     #[cfg(not(feature = "tiered-storage"))]
     pub fn create_edge_with_id(&self, id: EdgeId, src: NodeId, dst: NodeId, edge_type: &str) {
+        // cardinalities change: the next ensure_statistics_fresh() must recompute
+        self.needs_stats_recompute.store(true, Ordering::Relaxed);
         let epoch = self.current_epoch();
         let type_id = self.get_or_create_edge_type_id(edge_type);
 
@@ -2981,6 +3011,8 @@ impl LpgStore {
     /// (Tiered storage version)
     #[cfg(feature = "tiered-storage")]
     pub fn create_edge_with_id(&self, id: EdgeId, src: NodeId, dst: NodeId, edge_type: &str) {
+        // cardinalities change: the next ensure_statistics_fresh() must recompute
+        self.needs_stats_recompute.store(true, Ordering::Relaxed);
         let epoch = self.current_epoch();
         let type_id = self.get_or_create_edge_type_id(edge_type);
 
